@@ -330,7 +330,8 @@ impl World {
         let m = &step["m"];
         let sc = self.scale;
         let map = (m["i"].as_u64().unwrap_or(0) as u32 * sc, m["e"].as_u64().unwrap_or(0) as u32 * sc, m["r"].as_u64().unwrap_or(0) as u32 * sc);
-        let some = map.2 != 0;
+        // a mount's own mapping may have an empty range ("translate nothing here"): `some` says whether one is given
+        let some = m["some"].as_bool().unwrap_or(map.2 != 0);
         let key = self.backend(&bid);
         let fs = self.bes[&key].fs.clone();
         let ord = self.bes[&key].ord;
@@ -1109,7 +1110,11 @@ impl World {
 
 // ---------------------------------------------------------------------- seeded scenario generator
 fn gen_map(rng: &mut Rng) -> (u32, u32, u32) {
-    match rng.below(9) {
+    match rng.below(13) {
+        9 => (5, 7, 0),                               // empty range
+        10 => (0, 0, 0),                              // empty range at 0
+        11 => (u32::MAX, 0, 1),                       // the single id 2^32-1
+        12 => (0, u32::MAX, 1),
         0 => (0, 100_000, 65_536),                    // disjoint
         1 => (100_000, 0, 65_536),                    // reversed
         2 => (0, 1000, 65_536),                       // overlapping
@@ -1128,6 +1133,13 @@ fn gen_map(rng: &mut Rng) -> (u32, u32, u32) {
 }
 fn mj(m: (u32, u32, u32)) -> Value {
     json!({"i": m.0, "e": m.1, "r": m.2})
+}
+/// a mount's mapping argument: Some(m) (also with an empty range) or None
+fn mjo(m: Option<(u32, u32, u32)>) -> Value {
+    match m {
+        Some(m) => json!({"i": m.0, "e": m.1, "r": m.2, "some": true}),
+        None => json!({"i": 0, "e": 0, "r": 0, "some": false}),
+    }
 }
 
 fn gen(seed: u64, nsc: usize, nmounts: usize, shape: &str, out: &str) {
@@ -1188,11 +1200,12 @@ fn gen(seed: u64, nsc: usize, nmounts: usize, shape: &str, out: &str) {
                 } else {
                     rng.pick(&paths).to_string()
                 };
-                let m = if shape != "nomap" && rng.chance(2, 5) { gen_map(&mut rng) } else { (0, 0, 0) };
+                let mo = if shape != "nomap" && rng.chance(2, 5) { Some(gen_map(&mut rng)) } else { None };
+                let m = mo.unwrap_or((0, 0, 0));
                 let b = format!("b{}", rng.range(1, 4));
                 let ruid = pick_id(&mut rng, &[m, g]);
                 let rgid = pick_id(&mut rng, &[m, g]);
-                let mut st = json!({"op": "mount", "path": p, "b": b, "m": mj(m), "ruid": ruid, "rgid": rgid, "root": (rng.range(1, 1 << 40)).to_string()});
+                let mut st = json!({"op": "mount", "path": p, "b": b, "m": mjo(mo), "ruid": ruid, "rgid": rgid, "root": (rng.range(1, 1 << 40)).to_string()});
                 if rng.chance(1, 40) && !(shape == "fill" && nm < 258) {
                     st["maxino"] = json!((MAX_INO + 1).to_string());
                 }
